@@ -11,6 +11,7 @@ import (
 	"strings"
 	"sync"
 	"sync/atomic"
+	"time"
 
 	"github.com/cockroachdb/pebble/vfs"
 	rp "github.com/jamf/regatta/pebble"
@@ -162,6 +163,8 @@ func (h c04hop) coq() string {
 		return "HSync"
 	case 3:
 		return "HClose"
+	case 5:
+		return ""
 	}
 	return fmt.Sprintf("HRecover %d", h.n)
 }
@@ -169,7 +172,7 @@ func (h c04hop) String() string {
 	if h.kind == 4 {
 		return fmt.Sprintf("recover(%d batches, format %d)", h.n, h.format)
 	}
-	return [...]string{"open", "update", "sync", "close"}[h.kind]
+	return [...]string{"open", "update", "sync", "close", "", "settle"}[h.kind]
 }
 
 type c04ev []int
@@ -343,6 +346,8 @@ func (d *c04driver) run(h c04hop, streams func(n int, t fsm.SnapshotRecoveryType
 		d.emit(12)
 		d.emit(13, d.applied)
 		d.f, d.live = nil, -1
+	case 5: // let Pebble's background work (a flush it started on its own) run; no step of the protocol
+		time.Sleep(400 * time.Millisecond)
 	case 4:
 		if d.f == nil || h.n < d.applied {
 			return true
@@ -412,6 +417,22 @@ func c04Log() [][]gEntry {
 	return [][]gEntry{b1, b2, b3, b4, b5, b6, b7, b8}
 }
 
+// a log whose second batch is one large mixed Update: 9 plain puts of 1 MiB, then a put with prev_kv, a counted
+// delete and a transaction (all need the indexed batch)
+func c04BigLog() [][]gEntry {
+	b1 := []gEntry{putE(1, "a", "1"), putE(2, "b", "2")}
+	var b2 []gEntry
+	for i := 0; i < 9; i++ {
+		b2 = append(b2, gEntry{Idx: uint64(3 + i), Cmd: gCmd{Kind: regattapb.Command_PUT, K: []byte(fmt.Sprintf("big%d", i)), V: bytes.Repeat([]byte{byte('A' + i)}, 1024*1024)}})
+	}
+	b2 = append(b2,
+		gEntry{Idx: 12, Cmd: gCmd{Kind: regattapb.Command_PUT, K: []byte("a"), V: []byte("3"), Prev: true}},
+		gEntry{Idx: 13, Cmd: gCmd{Kind: regattapb.Command_DELETE, K: []byte("b"), Count: true}},
+		gEntry{Idx: 14, Cmd: gCmd{Kind: regattapb.Command_TXN, Succ: []gOp{{Kind: 1, K: []byte("c"), V: []byte("4")}}}})
+	b3 := []gEntry{putE(15, "d", "5")}
+	return [][]gEntry{b1, b2, b3}
+}
+
 type c04scenario struct {
 	name string
 	ops  []c04hop
@@ -461,9 +482,11 @@ func c04Scenarios(r *rand.Rand, random int) []c04scenario {
 }
 
 func hopsCoq(ops []c04hop) string {
-	parts := make([]string, len(ops))
-	for i, h := range ops {
-		parts[i] = h.coq()
+	var parts []string
+	for _, h := range ops {
+		if c := h.coq(); c != "" {
+			parts = append(parts, c)
+		}
 	}
 	return cList(parts)
 }
@@ -497,155 +520,173 @@ func eventsObs(evs []c04ev) string {
 
 func runC04(args []string) error {
 	onlyScenario := -1
-	rf, err := parseFlags("c04", args, func(fs *flag.FlagSet) { fs.IntVar(&onlyScenario, "scenario", -1, "run one scenario only") })
+	installsOnly := false
+	rf, err := parseFlags("c04", args, func(fs *flag.FlagSet) {
+		fs.IntVar(&onlyScenario, "scenario", -1, "run one scenario only")
+		fs.BoolVar(&installsOnly, "installs", false, "only scenarios that install a snapshot (used by C08)")
+	})
 	if err != nil {
 		return err
 	}
 	sum := &Summary{Engine: "c04", Seed: rf.Seed,
 		Rule: "real fsm.FSM over Pebble's strict in-memory file system behind a sync-counting, event-recording wrapper. For each scenario (fixed: first open, updates, sync, clean close and reopen, snapshot install in both formats, unsynced tail, two installs; plus random operation sequences) and EVERY sync operation k issued by regatta or Pebble (file fsync or directory sync; other operations do not change what is durable) the k-th and all later syncs are dropped, the volatile state is discarded and the table is reopened; additionally a second crash at several syncs of the reopen itself. Go oracle: reopen succeeds, reported index is a batch boundary with content = entries 1..i, i >= index covered by the last completed sync/close/install, re-applying the entries after i reaches the no-crash end state. Coq: the recorded protocol events of the no-crash run must equal the model's primitive steps, and for every crash point (position = events completed before the crash) the model must admit the reopen outcome for some survival oracle. distinct = (scenario, crash points); non-trivial = crash after the first completed open"}
-	log := c04Log()
-	// expected content after exactly the first b batches
-	ref, _, err := newRealFSM(vfs.NewMem(), fsm.RecoveryTypeSnapshot)
-	if err != nil {
-		return err
-	}
-	exp := make([]string, len(log)+1)
-	exp[0], _ = contentOf(ref.f)
-	for i, b := range log {
-		if _, _, err := ref.apply(b); err != nil {
-			return err
-		}
-		exp[i+1], _ = contentOf(ref.f)
-	}
-	ref.close()
-	type skey struct {
-		n int
-		t fsm.SnapshotRecoveryType
-	}
-	cache := map[skey][]byte{}
-	streams := func(n int, t fsm.SnapshotRecoveryType) []byte {
-		if b, ok := cache[skey{n, t}]; ok {
-			return b
-		}
-		src, _, err := newRealFSM(vfs.NewMem(), t)
-		if err != nil {
-			panic(err)
-		}
-		defer src.close()
-		for _, b := range log[:n] {
-			if _, _, err := src.apply(b); err != nil {
-				panic(err)
-			}
-		}
-		ctx, err := src.f.PrepareSnapshot()
-		if err != nil {
-			panic(err)
-		}
-		var buf bytes.Buffer
-		if err := src.f.SaveSnapshot(ctx, &buf, nil); err != nil {
-			panic(err)
-		}
-		cache[skey{n, t}] = buf.Bytes()
-		return buf.Bytes()
-	}
-
 	cf := &CasesFile{Requires: []string{"Model.Bytes", "Model.Obs", "Model.DirProto", "Run.C04Run"}, CaseType: "c04case", Check: "c04_check", Show: "c04_model"}
 	hs, hk := sum.hist("syncs_per_scenario"), sum.hist("hops")
 	rnd := rf.rng()
-	scenarios := c04Scenarios(rnd, rf.count(4, 40))
-	for si, sc := range scenarios {
-		if onlyScenario >= 0 && si != onlyScenario {
-			continue
+	scenarioBase := 0
+	runLog := func(log [][]gEntry, scenarios []c04scenario) error {
+		// expected content after exactly the first b batches
+		ref, _, err := newRealFSM(vfs.NewMem(), fsm.RecoveryTypeSnapshot)
+		if err != nil {
+			return err
 		}
-		for _, h := range sc.ops {
-			hk.Inc(h.String())
+		exp := make([]string, len(log)+1)
+		exp[0], _ = contentOf(ref.f)
+		for i, b := range log {
+			if _, _, err := ref.apply(b); err != nil {
+				return err
+			}
+			exp[i+1], _ = contentOf(ref.f)
 		}
-		total := int64(0)
-		finalBatches := 0
-		for k := int64(0); k == 0 || k <= total+1; k++ {
-			seconds := []int64{0}
-			if k > 0 {
-				if rf.Tier == "thorough" {
-					seconds = []int64{0, 1, 2, 3, 4, 5, 6, 8, 10, 13}
-				} else if k%3 == 0 {
-					seconds = []int64{0, 1 + k%7}
+		ref.close()
+		type skey struct {
+			n int
+			t fsm.SnapshotRecoveryType
+		}
+		cache := map[skey][]byte{}
+		streams := func(n int, t fsm.SnapshotRecoveryType) []byte {
+			if b, ok := cache[skey{n, t}]; ok {
+				return b
+			}
+			src, _, err := newRealFSM(vfs.NewMem(), t)
+			if err != nil {
+				panic(err)
+			}
+			defer src.close()
+			for _, b := range log[:n] {
+				if _, _, err := src.apply(b); err != nil {
+					panic(err)
 				}
 			}
-			for _, k2 := range seconds {
-				d := newC04Driver(log, k)
-				failedBefore := ""
-				for _, h := range sc.ops {
-					if !d.run(h, streams) {
-						if !d.fs.crashed.Load() {
-							failedBefore = fmt.Sprintf("%v: %v", h, d.opErr)
-						}
-						break
+			ctx, err := src.f.PrepareSnapshot()
+			if err != nil {
+				panic(err)
+			}
+			var buf bytes.Buffer
+			if err := src.f.SaveSnapshot(ctx, &buf, nil); err != nil {
+				panic(err)
+			}
+			cache[skey{n, t}] = buf.Bytes()
+			return buf.Bytes()
+		}
+
+		for si, sc := range scenarios {
+			if onlyScenario >= 0 && si+scenarioBase != onlyScenario {
+				continue
+			}
+			for _, h := range sc.ops {
+				hk.Inc(h.String())
+			}
+			total := int64(0)
+			finalBatches := 0
+			for k := int64(0); k == 0 || k <= total+1; k++ {
+				seconds := []int64{0}
+				if k > 0 {
+					if rf.Tier == "thorough" {
+						seconds = []int64{0, 1, 2, 3, 4, 5, 6, 8, 10, 13}
+					} else if k%3 == 0 {
+						seconds = []int64{0, 1 + k%7}
 					}
 				}
-				in := map[string]any{"scenario": sc.name, "ops": fmt.Sprint(sc.ops), "crash_before_sync": k, "second_crash_at_reopen_sync": k2}
-				sum.Evaluations++
-				if failedBefore != "" {
-					sum.violate(sum.Evaluations, "an operation fails although nothing crashed", in, failedBefore)
-					continue
-				}
-				if k == 0 { // the run without a crash: how many syncs there are, where it ends
-					total = d.fs.n.Load()
-					finalBatches = d.applied
-					hs[sc.name] = int(total)
-				}
-				full := !d.fs.crashed.Load()
-				trace := eventsObs(d.events)
-				lastSync := d.lastSync
-				eras := []string{fmt.Sprintf("era_of %s %d", hopsCoq(sc.ops), len(d.events))}
-				d.crash()
-				if k2 > 0 { // a second crash during the recovery itself
-					d.fs.crashAt = d.fs.n.Load() + k2
-					_ = d.run(c04hop{kind: 0}, streams)
-					eras = append(eras, fmt.Sprintf("era_of [HOpen] %d", len(d.events)))
-					d.crash()
-				}
-				if k > 3 {
-					sum.DistinctNontrivial++
-				}
-				// the final reopen
-				outObs := "OL []"
-				if !d.run(c04hop{kind: 0}, streams) {
-					sum.violate(sum.Evaluations, "reopening the table after a crash fails", in, fmt.Sprint(d.opErr))
-				} else {
-					index := d.index()
-					b, exact := batchCount(log, index)
-					outObs = oL(oN(int64(b)))
-					content, _ := contentOf(d.f)
-					if !exact {
-						sum.violate(sum.Evaluations, "after a crash the table reports an index that is not a batch boundary", in, fmt.Sprint(index))
-					} else if content != exp[b] {
-						sum.violate(sum.Evaluations, "after a crash the content is not the result of applying exactly the entries up to the reported index", in, fmt.Sprintf("index %d content %q want %q", index, content, exp[b]))
-					}
-					if b < lastSync {
-						sum.violate(sum.Evaluations, "after a crash the reported index is behind the last completed sync", in, fmt.Sprintf("batches %d (index %d) < synced batches %d", b, index, lastSync))
-					}
-					// re-apply the log entries after the reported index up to where the run without a crash ended
-					for d.applied < finalBatches {
-						if !d.run(c04hop{kind: 1}, streams) {
-							sum.violate(sum.Evaluations, "re-applying entries after recovery fails", in, fmt.Sprint(d.opErr))
+				for _, k2 := range seconds {
+					d := newC04Driver(log, k)
+					failedBefore := ""
+					for _, h := range sc.ops {
+						if !d.run(h, streams) {
+							if !d.fs.crashed.Load() {
+								failedBefore = fmt.Sprintf("%v: %v", h, d.opErr)
+							}
 							break
 						}
 					}
-					if d.applied >= finalBatches {
-						final, _ := contentOf(d.f)
-						if final != exp[d.applied] {
-							sum.violate(sum.Evaluations, "re-applying the entries after the reported index does not reach the no-crash state", in, fmt.Sprintf("%q vs %q", final, exp[d.applied]))
+					in := map[string]any{"scenario": sc.name, "ops": fmt.Sprint(sc.ops), "crash_before_sync": k, "second_crash_at_reopen_sync": k2}
+					sum.Evaluations++
+					if failedBefore != "" {
+						sum.violate(sum.Evaluations, "an operation fails although nothing crashed", in, failedBefore)
+						continue
+					}
+					if k == 0 { // the run without a crash: how many syncs there are, where it ends
+						total = d.fs.n.Load()
+						finalBatches = d.applied
+						hs[sc.name] = int(total)
+					}
+					full := !d.fs.crashed.Load()
+					trace := eventsObs(d.events)
+					lastSync := d.lastSync
+					eras := []string{fmt.Sprintf("era_of %s %d", hopsCoq(sc.ops), len(d.events))}
+					d.crash()
+					if k2 > 0 { // a second crash during the recovery itself
+						d.fs.crashAt = d.fs.n.Load() + k2
+						_ = d.run(c04hop{kind: 0}, streams)
+						eras = append(eras, fmt.Sprintf("era_of [HOpen] %d", len(d.events)))
+						d.crash()
+					}
+					if k > 3 {
+						sum.DistinctNontrivial++
+					}
+					// the final reopen
+					outObs := "OL []"
+					if !d.run(c04hop{kind: 0}, streams) {
+						sum.violate(sum.Evaluations, "reopening the table after a crash fails", in, fmt.Sprint(d.opErr))
+					} else {
+						index := d.index()
+						b, exact := batchCount(log, index)
+						outObs = oL(oN(int64(b)))
+						content, _ := contentOf(d.f)
+						if !exact {
+							sum.violate(sum.Evaluations, "after a crash the table reports an index that is not a batch boundary", in, fmt.Sprint(index))
+						} else if content != exp[b] {
+							sum.violate(sum.Evaluations, "after a crash the content is not the result of applying exactly the entries up to the reported index", in, fmt.Sprintf("index %d content %.300q want %.300q", index, content, exp[b]))
 						}
+						if b < lastSync {
+							sum.violate(sum.Evaluations, "after a crash the reported index is behind the last completed sync", in, fmt.Sprintf("batches %d (index %d) < synced batches %d", b, index, lastSync))
+						}
+						// re-apply the log entries after the reported index up to where the run without a crash ended
+						for d.applied < finalBatches {
+							if !d.run(c04hop{kind: 1}, streams) {
+								sum.violate(sum.Evaluations, "re-applying entries after recovery fails", in, fmt.Sprint(d.opErr))
+								break
+							}
+						}
+						if d.applied >= finalBatches {
+							final, _ := contentOf(d.f)
+							if final != exp[d.applied] {
+								sum.violate(sum.Evaluations, "re-applying the entries after the reported index does not reach the no-crash state", in, fmt.Sprintf("%.300q vs %.300q", final, exp[d.applied]))
+							}
+						}
+						if len(sum.Samples) < 3 && k == total/2 && k2 == 0 {
+							sum.Samples = append(sum.Samples, map[string]any{"scenario": sc.name, "ops": fmt.Sprint(sc.ops), "crash_before_sync": k, "of_syncs": total, "reopen_index": index, "batches": b, "last_completed_sync_batches": lastSync})
+						}
+						_ = d.f.Close()
 					}
-					if len(sum.Samples) < 3 && k == total/2 && k2 == 0 {
-						sum.Samples = append(sum.Samples, map[string]any{"scenario": sc.name, "ops": fmt.Sprint(sc.ops), "crash_before_sync": k, "of_syncs": total, "reopen_index": index, "batches": b, "last_completed_sync_batches": lastSync})
-					}
-					_ = d.f.Close()
+					cf.Add(fmt.Sprintf("{| k_eras := %s; k_full := %s; k_impl := %s |}", cList(eras), cBool(full), oL(trace, outObs)),
+						fmt.Sprintf("%s %v crash before sync %d (of %d), second crash at reopen sync %d", sc.name, sc.ops, k, total, k2))
 				}
-				cf.Add(fmt.Sprintf("{| k_eras := %s; k_full := %s; k_impl := %s |}", cList(eras), cBool(full), oL(trace, outObs)),
-					fmt.Sprintf("%s %v crash before sync %d (of %d), second crash at reopen sync %d", sc.name, sc.ops, k, total, k2))
 			}
 		}
+		scenarioBase += len(scenarios)
+		return nil
+	}
+	if err := runLog(c04Log(), c04Scenarios(rnd, rf.count(4, 40))); err != nil {
+		return err
+	}
+	// one Update that mixes more than a memtable of plain writes with commands that need the indexed batch: Pebble
+	// flushes on its own while (or right after) the batch is applied; the batch and its index must stay one unit
+	o, u, sy, settle := c04hop{kind: 0}, c04hop{kind: 1}, c04hop{kind: 2}, c04hop{kind: 5}
+	if err := runLog(c04BigLog(), []c04scenario{
+		{"large mixed batch, unsynced", []c04hop{o, u, sy, u, settle, u}},
+	}); err != nil {
+		return err
 	}
 	if len(sum.Samples) == 0 {
 		sum.Samples = append(sum.Samples, "no crash points")
